@@ -51,7 +51,7 @@ def _spec(var, k, nd):
     vx, vy, order = var
     lab = {"x": X[vx], "y": Y[vy], "z": Z["perm" if (vy == "perm" and nd == 3) else "eq"]}
     dims = list(order)
-    return D.spec(dims, [lab[d][1] for d in dims], [lab[d][0] for d in dims], vk="f" if k % 2 == 0 else "i", base=10 * (k + 1) + 1,
+    return D.spec(dims, [lab[d][1] for d in dims], [lab[d][0] for d in dims], vk=["f", "i", "f4", "i4"][k % 4], base=10 * (k + 1) + 1,
                   var=D.VARIANTS[(k * 2 + len(order)) % len(D.VARIANTS)], attrs={"src": k})
 
 
